@@ -5,6 +5,7 @@ CONSTANTS
   SmallMsg = 4
   BigMsg = 20
   MaxErr = 3
+  RcptBound = 3
   Alphabet <- MCAlphabet
 VIEW View
 CHECK_DEADLOCK FALSE
